@@ -230,7 +230,9 @@ theorem addAttributes_plain (stack : NsStack) (node : Path) : ∀ (abs : List At
       rw [← show Env.xmlIdName = 1 from rfl, ← heq, hget] at this
       simp only [Option.some.injEq, Prod.mk.injEq] at this
       exact hns this.2.symm
-    simp only [addAttributes, hname, hnew, Bool.false_eq_true, if_false, hnotid, Bool.false_and]
+    have hval : xmlIdValue (st.env.internName ab.name Env.noNamespace).2 ab.value = ab.value := by
+      simp only [xmlIdValue, hnotid, Bool.false_eq_true, if_false]
+    simp only [addAttributes, hname, hnew, Bool.false_eq_true, if_false, hnotid, Bool.false_and, hval]
     obtain ⟨hp0, _, _⟩ := hext
     simp only [List.map_cons] at hnd
     have hnd' := List.nodup_cons.mp hnd
